@@ -119,7 +119,7 @@ def prepare(d, seed, names):
     # haplotypes across that link is open; only the SECOND sample carries a pre-phasing (one set over all variants,
     # the two open haplotypes swapped behind the link), which decides the link under --use-prephasing.  The other
     # samples have no phased block.
-    P2 = os.path.join(d, "P2")
+    P2 = os.path.join(d, "Pre")
     os.makedirs(P2)
     k2 = 4
     w2 = {"seed": seed + 5, "chroms": [{"name": "chr1", "length": 60 + 40 * k2 + 60, "variants": [{"pos": 60 + 40 * i, "kind": "SNV", "len": 1} for i in range(k2)]}], "samples": list(names), "haps": {}, "reads": []}
